@@ -883,6 +883,15 @@ class Tracer:
             return nd
         return rec(node, limit)
 
+    def stmt_value(self, body, bb, idx):
+        """origin of the value assigned by the assign statement at (bb, idx)"""
+        g = graph(body)
+        st = body.blocks[bb]["stmts"][idx]
+        for d in g.deflist:
+            if d[1] == bb and d[2] == idx and d[3] == "assign":
+                return self.expand(self._defnode(body, g, d, 0))
+        return ("unknown",)
+
     # ---- expression DAG
     def children(self, node):
         k = node[0]
